@@ -69,4 +69,10 @@ META = {
         "note": "trusts the catalogue's reading of the documented forms (rustdoc of CooklangValueExt and NameAndUrl::parse, extensions.md table)",
         "technique": "runtime monitoring: reference-arithmetic oracle + accessor/diagnostic agreement",
     },
+    "C16": {
+        "text": "Generated layer sequences are built under catch_unwind; returned converters are walked for index consistency, compared with an independent model of the layering rules, and then used (all conversions, fit, to-system). Inconsistent layers must be rejected, valid ones accepted; the shipped files are checked the same way and against Converter::default().",
+        "design_ref": "DESIGN.md §6 C16",
+        "note": "fraction-table precedence is only exercised (no panic), its values are not observable through the public API",
+        "technique": "runtime monitoring: consistency walk + independent layering model + guarded use",
+    },
 }
